@@ -35,6 +35,11 @@ const HEADER_ADDRESS: Address = {
 const MAX_KEYSIZE_ENCODED_SIZE: usize = 33;
 const ENTRY_CAPACITY: usize = ORDER * MAX_KEYSIZE_ENCODED_SIZE + ORDER * 8 + ORDER_CHILD * 8;
 
+#[cfg(pdb_verif)]
+pub(crate) fn verif_order() -> usize {
+	ORDER
+}
+
 #[derive(Debug, PartialEq, Eq, Clone, Copy)]
 pub enum IterDirection {
 	Backward,
@@ -364,6 +369,18 @@ impl BTreeTable {
 	}
 }
 
+#[cfg(pdb_verif)]
+impl BTreeTable {
+	pub(crate) fn verif_digest(&self, h: &mut crate::verif::Hasher) {
+		let tables = self.tables.read();
+		for t in tables.iter() {
+			if !t.verif_is_default() {
+				t.verif_digest(h);
+			}
+		}
+	}
+}
+
 pub mod commit_overlay {
 	use super::*;
 	use crate::{
@@ -408,6 +425,8 @@ pub mod commit_overlay {
 			options: &Options,
 		) -> Result<()> {
 			let ref_counted = options.columns[self.col as usize].ref_counted;
+			#[cfg(pdb_verif)]
+			crate::verif::ev(crate::verif::EV_COPY_TO_OVERLAY, self.col as u64, record_id);
 			for change in self.changes.iter() {
 				match change {
 					Operation::Set(key, value) => {
